@@ -60,10 +60,10 @@ def plan(ctx):
     if not ctx.quick():
         runs.append(("in-all-k2", cfg_text("in", shapes=ALL_SHAPES, terms=ALL_TERMS, max_msgs=2, peers=["Q"], chunks=[0, 3],
                                            nilrecv=[False]), None))
-        for m, num in ((8, 500), (13, 500)):     # larger attempt caps: seeded random behaviours
+        for m, num in ((8, 2500), (13, 2500)):     # larger attempt caps: seeded random behaviours
             runs.append(("out-sim-m%d" % m, cfg_text("out", m, msgs=ALL_SHAPES, deadlines=[True, False], live=False), (num, 4 * m + 12)))
         runs.append(("in-sim", cfg_text("in", shapes=ALL_SHAPES, terms=ALL_TERMS, max_msgs=8, peers=["P", "Q"],
-                                        chunks=[0, 1, 2, 3, 7, 64], nilrecv=[False], live=False), (1500, 14)))
+                                        chunks=[0, 1, 2, 3, 7, 64], nilrecv=[False], live=False), (4000, 14)))
     return runs
 
 
